@@ -78,6 +78,10 @@ def serverClientHello (H : Hs) (tok : Nat) (c : Conn) (_t : Int) (data : Bytes) 
   | .error e => (c, [], some e)
   | .ok ver =>
     if ver ≠ 1 then (c, [], none)
+    else if (H.serverReply data tok).2.length > data.length then
+      -- anti-amplification (repaired): a hello shorter than the reply it asks for is not answered;
+      -- the key and token just derived are dropped again
+      ({ c with token := 0, key := none }, [], none)
     else
       let c1 := { c with token := tok, key := some (H.serverReply data tok).1, status := .connecting }
       (sendType c1 .serverHello (H.serverReply data tok).2 0 none, [], none)
